@@ -8,6 +8,15 @@ t = `clock.seconds` read inside the routine right before the send, or the
 latency alone (absolute from zero) outside routines - computed with the same
 single float addition, compared with ==.  Expected order: stable sort by that
 time of [root node, sends in execution order, tail marker].
+
+Sends through the clumping paths (send_clumped_bundles, server.bind() blocks,
+BundleNetAddr around a NetAddr; generator: vf/c07_gen.gen_clump_send) may
+become several score entries: the entries holding the send's message ids are
+located in score.list, must hold every message exactly once in send order,
+one entry at exactly the expected time when the set fits one datagram, else
+non-decreasing times within [expected, expected + (pieces + 1) ns]; they are
+then inserted in the expectation at their own times and judged with the rest
+(order, tail marker, content, raw).
 """
 
 TWO32 = 2 ** 32
@@ -24,10 +33,21 @@ def gen_program(rng, G):
         [0.5, 1, 2, 3, 7.5]))]) for _ in range(nclk)]
     sid = [0]
     pool = []       # bundle lists that may be sent again (same object)
+    # an eighth of the programs also send through the clumping paths
+    p_clump = rng.choice([0.15, 0.3, 0.5]) if rng.random() < 0.125 else 0.0
+    nbig = [0]
 
     def send(p_none=0.25):
         if rng.random() < p_none:
             return None
+        if p_clump and rng.random() < p_clump:
+            s = sid[0]
+            sid[0] += 1
+            path, lst, info = G.gen_clump_send(
+                rng, s, 'small' if nbig[0] >= 4 else None)
+            if info['class'] != 'small':
+                nbig[0] += 1
+            return ('clump', path, lst, info)
         if pool and rng.random() < 0.025:
             return ('reuse', rng.randrange(len(pool)))
         s = sid[0]
@@ -70,6 +90,9 @@ def run_nrt(spec, acc):
 
     assert osc.selftest()
     addr = NetAddr('127.0.0.1', 57110)
+    from sc3.base.netaddr import BundleNetAddr
+    from sc3.synth.server import Server
+    srv = Server('c07-nrt-bind', NetAddr('127.0.0.1', 57207))
 
     def exc_key(e):
         s = tb_sites(e)
@@ -96,7 +119,43 @@ def run_nrt(spec, acc):
                 clocks.append(tc)
         restamped = [False]
 
+        class _Leave(Exception):
+            pass
+
+        def do_clump(s, t):
+            _, path, lst, info = s
+            pristine = G.clone(lst)
+            exc = None
+            try:
+                if path == 'clumped':
+                    addr.send_clumped_bundles(lst[0], *lst[1:])
+                else:
+                    if path == 'bind':
+                        srv.latency = lst[0]
+                        cm = srv.bind()
+                    else:
+                        cm = BundleNetAddr(addr)
+                    with cm as b:
+                        tgt = srv.addr if path == 'bind' else b
+                        for e, how in zip(lst[1:], info['inner']):
+                            if how == 'msg' and isinstance(e[0], str):
+                                tgt.send_msg(*e)
+                            elif how == 'clumped':
+                                tgt.send_clumped_bundles(0.5, e)
+                            else:
+                                tgt.send_bundle(0.5, e)   # time is discarded
+                        if info['raises']:
+                            raise _Leave()
+            except _Leave:
+                pass
+            except Exception as e:
+                exc = e
+            mutated = M.srepr(lst) != M.srepr(pristine)
+            log.append(('clump', (path, pristine, info), t, exc, False, mutated))
+
         def do(s, t):
+            if s[0] == 'clump':
+                return do_clump(s, t)
             reused = False
             if s[0] in ('reuse', 'pooled'):
                 lst = pool[s[1]]
@@ -178,7 +237,121 @@ def run_nrt(spec, acc):
 
         expected = [(0.0, [0.0, ['/g_new', 1, 0, 0]], None, None, 'root')]
         n_acc = 0
+        has_clump = any(x[0] == 'clump' for x in log)
+        clump_fail = False
+        lst_full = lst
+        if has_clump:
+            # entries without elements: the library cuts an oversized set of
+            # messages into pieces of 8 kB and emits an empty piece in front
+            # of a message that is larger than that; the statement is about
+            # the bundles the program sent, so such entries are tolerated
+            # (and counted) exactly when a message of that size was sent
+            empties = [e for e in lst if len(e) == 1]
+            lst = [e for e in lst if len(e) != 1]
+            if empties:
+                acc.count('observed_nrt_score_entries_without_elements',
+                          len(empties))
+                if not any(G.msg_size(m) > 8000 for x in log
+                           if x[0] == 'clump' and not x[1][2]['raises']
+                           for m in x[1][1][1:] if isinstance(m[0], str)):
+                    acc.violation('C07/nrt/score-entry-without-elements',
+                                  {'case': i, 'times': [e[0] for e in empties]})
+            entry_ids = [_ids(e) for e in lst]
+            by_sid = {}
+            for k, idl in enumerate(entry_ids):
+                for x in idl:
+                    if isinstance(x, tuple) and x[0] == '/c7':
+                        pl = by_sid.setdefault(x[1], [])
+                        if not pl or pl[-1] != k:
+                            pl.append(k)
         for kind, pristine, t, exc, reused, mutated in log:
+            if kind == 'clump':
+                path, pr, info = pristine
+                ctx = 'outside-routine' if t is None else 'inside-routine'
+                sid = pr[1][1] if isinstance(pr[1][0], str) else pr[1][1][1]
+                w = {'case': i, 'path': path, 'context': ctx,
+                     'latency': pr[0], 'logical_time': t,
+                     'size_class': info['class'], 'elements': len(pr) - 1,
+                     'encoded_size': G.bundle_size(pr[1:])}
+                pos = by_sid.get(sid, [])
+                if mutated:
+                    acc.violation('C07/nrt/clumped-send/caller-lists-modified/'
+                                  + path, w)
+                if exc is not None:
+                    clump_fail = True
+                    acc.violation(f'C07/nrt/clumped-send/raises/{path}/'
+                                  + exc_key(exc), dict(w, tb=short_tb(exc)))
+                    continue
+                if info['raises']:
+                    acc.count('nrt_bind_blocks_left_by_exception')
+                    if pos:
+                        clump_fail = True
+                        acc.violation('C07/nrt/bind-block-left-by-an-exception-'
+                                      'was-sent/' + path, w)
+                    continue
+                n_acc += 1
+                acc.count(f'nrt_sends/{ctx}')
+                acc.count(f'nrt_clump_sends/{path}')
+                acc.count(f'nrt_clump_sends/{ctx}')
+                want = []
+                for e in pr[1:]:
+                    want += [tuple(m[:3]) for m in
+                             ([e] if isinstance(e[0], str) else e[1:])]
+                got = [x for k in pos for x in entry_ids[k]]
+                if got != want:
+                    clump_fail = True
+                    if not got:
+                        d = 'none-listed'
+                    elif sorted(set(got), key=str) == sorted(want, key=str):
+                        d = 'duplicated' if len(got) > len(want) else 'reordered'
+                    elif set(got) < set(want):
+                        d = 'some-lost'
+                    else:
+                        d = 'mixed-with-other-sends'
+                    acc.violation(
+                        f'C07/nrt/clumped-send/messages-not-listed-exactly-'
+                        f'once-in-order/{path}/{d}',
+                        dict(w, entries=len(pos), listed=len(got),
+                             sent=len(want)))
+                    continue
+                fits = w['encoded_size'] <= G.MAX_DGRAM
+                acc.count('nrt_clump_sends_checked/'
+                          + ('one-datagram' if fits else 'oversized'))
+                if abs(w['encoded_size'] - G.MAX_DGRAM) <= 8:
+                    acc.count('nrt_clump_sends_checked/within-8-bytes-of-limit')
+                base = _leff(pr[0]) + t if t is not None else _leff(pr[0])
+                times = [lst[k][0] for k in pos]
+                if fits:
+                    # one bundle at exactly logical time + latency
+                    if len(pos) != 1 or times[0] != base:
+                        clump_fail = True
+                        acc.violation(
+                            'C07/nrt/clumped-send/fits-one-datagram-but-'
+                            f'split-or-shifted/{path}',
+                            dict(w, times=times[:5], expected=base))
+                        continue
+                else:
+                    # documented: the pieces are 'one nanosecond later each'
+                    hi = base + (len(pos) + len(empties) + 1) * 1e-9 + 1e-11
+                    if not all(base <= x <= hi for x in times) or \
+                            any(a > b for a, b in zip(times, times[1:])):
+                        clump_fail = True
+                        bad = [x for x in times if not base <= x <= hi][:3]
+                        acc.violation(
+                            'C07/nrt/clumped-send/piece-time-differs/'
+                            f'{path}/{ctx}',
+                            dict(w, pieces=len(pos), expected_from=base,
+                                 expected_to=hi, times=bad or times[:6]))
+                        continue
+                    acc.count('nrt_clump_pieces_checked', len(pos))
+                els = pr[1:]
+                for k in pos:
+                    ne = len(lst[k]) - 1
+                    x1 = abs_times([pr[0]] + els[:ne], t)
+                    x1[0] = lst[k][0]
+                    els = els[ne:]
+                    expected.append((lst[k][0], x1, t, None, ctx))
+                continue
             must = None
             try:
                 (M.expect_msg if kind == 'msg' else M.expect_bundle)(
@@ -238,21 +411,6 @@ def run_nrt(spec, acc):
                 key = 'C07/nrt/reused-bundle-list-restamped-by-earlier-send'
             acc.violation(key, dict(w, case=i))
 
-        def ids(entry):
-            out = []
-
-            def rec(b):
-                for e in b[1:]:
-                    if isinstance(e[0], str):
-                        out.append(tuple(e[:3]) if e[0] == '/c7' else e[0])
-                    else:
-                        rec(e)
-            try:
-                rec(entry)
-            except Exception:
-                out.append('?')
-            return out
-
         # ---- tail marker ---------------------------------------------------
         marks = [k for k, e in enumerate(lst)
                  if len(e) == 2 and e[1] == ['/c_set', 0, 0]]
@@ -269,7 +427,7 @@ def run_nrt(spec, acc):
             alt = None
             if not (prog['finish_inside'] and finish_info):
                 alt = prog['tail'] + max(end_time, last_bundle)
-            if mt != tail_time and mt != alt:
+            if mt != tail_time and mt != alt and not clump_fail:
                 viol('C07/nrt/tail-marker-time-differs',
                      {'marker_time': mt, 'expected': tail_time,
                       'end_time': end_time, 'tail': prog['tail']})
@@ -284,7 +442,9 @@ def run_nrt(spec, acc):
 
         # ---- list: time, order, content ------------------------------------
         ok_list = True
-        if len(lst) != len(exp_sorted):
+        if clump_fail:
+            ok_list = False     # reported above; positions are not aligned
+        elif len(lst) != len(exp_sorted):
             ok_list = False
             viol('C07/nrt/score-entry-count-differs',
                  {'entries': len(lst), 'expected': len(exp_sorted)})
@@ -296,7 +456,7 @@ def run_nrt(spec, acc):
             else:
                 for k, (e, x) in enumerate(zip(lst, exp_sorted)):
                     acc.count('nrt_entries_compared')
-                    if ids(e) != ids(x[1]):
+                    if _ids(e) != _ids(x[1]):
                         ok_list = False
                         same_t = e[0] == x[0]
                         viol('C07/nrt/equal-time-entries-not-in-send-order'
@@ -353,11 +513,13 @@ def run_nrt(spec, acc):
                 viol(f'C07/nrt/write-raises/{exc_key(e)}', {'tb': short_tb(e)})
             finally:
                 os.unlink(path)
-        if len(chunks) != len(lst):
+        if len(chunks) != len(lst_full):
             viol('C07/nrt/raw-differs-from-list/entry-count',
-                 {'raw_entries': len(chunks), 'list_entries': len(lst)})
+                 {'raw_entries': len(chunks), 'list_entries': len(lst_full)})
             continue
-        for k, (ch, e) in enumerate(zip(chunks, lst)):
+        if len(lst) != len(lst_full):
+            ok_list = False     # (no completion bundles in such programs)
+        for k, (ch, e) in enumerate(zip(chunks, lst_full)):
             acc.count('nrt_raw_entries_compared')
             try:
                 d = osc.decode(ch)
@@ -402,6 +564,22 @@ def run_nrt(spec, acc):
             acc.sample({'case': i, 'score_list': [M.srepr(e) for e in lst],
                         'raw_bytes': len(raw), 'tail': prog['tail'],
                         'end_time': end_time})
+
+
+def _ids(entry):
+    out = []
+
+    def rec(b):
+        for e in b[1:]:
+            if isinstance(e[0], str):
+                out.append(tuple(e[:3]) if e[0] == '/c7' else e[0])
+            else:
+                rec(e)
+    try:
+        rec(entry)
+    except Exception:
+        out.append('?')
+    return out
 
 
 def _same_entry(a, b):
